@@ -21,13 +21,13 @@ import (
 )
 
 type cfgConstraints struct {
-	yamlKeys     map[string]string // struct field -> yaml key
-	feederNames  map[string]string // yaml feeder name -> enum const name
-	lowerTrim    bool              // ParseFeeder normalises with ToLower/TrimSpace
-	rekorParam   string            // required query parameter of the rekor feeder
-	schemes      map[string]bool   // URL schemes the serverless feeder supports (others panic)
-	urlParsers   map[string]bool   // feeder packages that url.Parse the URL at start
-	intParams    []intParamCheck   // start-up refusals on a numeric parse of a URL query parameter
+	yamlKeys    map[string]string // struct field -> yaml key
+	feederNames map[string]string // yaml feeder name -> enum const name
+	lowerTrim   bool              // ParseFeeder normalises with ToLower/TrimSpace
+	rekorParam  string            // required query parameter of the rekor feeder
+	schemes     map[string]bool   // URL schemes the serverless feeder supports (others panic)
+	urlParsers  map[string]bool   // feeder packages that url.Parse the URL at start
+	intParams   []intParamCheck   // start-up refusals on a numeric parse of a URL query parameter
 }
 
 // intParamCheck: FeedLog of feeder `enum` refuses to start unless strconv.<fn>(query parameter `param`) succeeds.
@@ -370,7 +370,6 @@ func ruleShippedConfig(w *World, r *Run, rule string) {
 	}
 }
 
-
 // feedFuncEnums maps each FeedLog entry point to the name of the Feeder constant that FeedFunc resolves to it.
 func feedFuncEnums(w *World) map[string]string {
 	out := map[string]string{}
@@ -382,7 +381,6 @@ func feedFuncEnums(w *World) map[string]string {
 	}
 	return out
 }
-
 
 // shippedUnknownKeys lists (file:line) the keys of shipped configuration entries that are not in known.
 func shippedUnknownKeys(w *World, known map[string]bool) []string {
